@@ -42,12 +42,12 @@ Record chain_cfg := { cf_compact : bool; cf_dedup : bool; cf_crc : bool; cf_fuzz
 
 Section Chain.
 Variable cfg : chain_cfg.
-Variables IS EV : Type.
+Variables IS CX EV : Type.
 (* the whole-section consumer below the chain: header, complete section bytes, and the provenance of
    those bytes: [Some off] = delivered in place, [off] bytes into the current packet; [None] = from the
    re-assembly buffer *)
 (* arguments: header, TableSyntaxHeader bytes (empty for compact syntax), section bytes, provenance *)
-Variable inner : IS -> common_header -> list N -> list N -> option nat -> res (IS * list EV).
+Variable inner : IS -> CX -> common_header -> list N -> list N -> option nat -> res (IS * CX * list EV).
 
 Record chain := {
   sp_ignore_rest : bool;            (* {SectionSyntax|CompactSyntax}SectionProcessor.ignore_rest *)
@@ -75,29 +75,29 @@ Definition set_sp_ignore (c : chain) (ig : bool) : chain :=
      bf_buf := bf_buf c; bf_state := bf_state c; in_state := in_state c |}.
 
 (* ---- CrcCheckWholeSectionSyntaxPayloadParser::section (or straight through when not configured) ---- *)
-Definition crc_layer_section (c : chain) (h : common_header) (tsh : list N) (data : list N) (origin : option nat)
-  : res (chain * list EV) :=
+Definition crc_layer_section (c : chain) (cx : CX) (h : common_header) (tsh : list N) (data : list N) (origin : option nat)
+  : res (chain * CX * list EV) :=
   if cf_crc cfg then
     do _ <- assert (ch_ssi h) 313;
-    if Nat.ltb (length data) (SCH_SIZE + TSH_SIZE + 4) then Ok (c, [])
-    else if negb (cf_fuzzing cfg) && negb (m_sum32 data =? 0) then Ok (c, [])
-    else do r <- inner (in_state c) h tsh data origin; Ok (set_inner c (fst r), snd r)
+    if Nat.ltb (length data) (SCH_SIZE + TSH_SIZE + 4) then Ok (c, cx, [])
+    else if negb (cf_fuzzing cfg) && negb (m_sum32 data =? 0) then Ok (c, cx, [])
+    else do r <- inner (in_state c) cx h tsh data origin; Ok (set_inner c (fst (fst r)), snd (fst r), snd r)
   else
-    do r <- inner (in_state c) h tsh data origin; Ok (set_inner c (fst r), snd r).
+    do r <- inner (in_state c) cx h tsh data origin; Ok (set_inner c (fst (fst r)), snd (fst r), snd r).
 
 (* ---- Buffer{Section|Compact}SyntaxParser ---- *)
-Definition buf_start (c : chain) (h : common_header) (tsh : list N) (data : list N) (off : nat) : res (chain * list EV) :=
+Definition buf_start (c : chain) (cx : CX) (h : common_header) (tsh : list N) (data : list N) (off : nat) : res (chain * CX * list EV) :=
   let slwh := (ch_section_length h + SCH_SIZE)%nat in
   if Nat.leb slwh (length data) then
     do d <- slice_to data slwh 314;
-    crc_layer_section (set_buf c (bf_buf c) Complete) h tsh d (Some off)
+    crc_layer_section (set_buf c (bf_buf c) Complete) cx h tsh d (Some off)
   else
     do to_read <- usub slwh (length data) 315;
-    Ok (set_buf c data (Buffering to_read), []).
+    Ok (set_buf c data (Buffering to_read), cx, []).
 
-Definition buf_continue (c : chain) (data : list N) : res (chain * list EV) :=
+Definition buf_continue (c : chain) (cx : CX) (data : list N) : res (chain * CX * list EV) :=
   match bf_state c with
-  | Complete => Ok (c, [])
+  | Complete => Ok (c, cx, [])
   | Buffering remaining =>
       do new_remaining <- (if Nat.ltb remaining (length data) then Ok 0%nat else usub remaining (length data) 316);
       if Nat.eqb new_remaining 0 then
@@ -109,59 +109,59 @@ Definition buf_continue (c : chain) (data : list N) : res (chain * list EV) :=
         (* section syntax: TableSyntaxHeader::new(&buf[3..]) asserts at least 5 more bytes *)
         do tsh <- (if cf_compact cfg then Ok []
                    else do t <- slice_from b SCH_SIZE 319; tsh_new t);
-        crc_layer_section c1 h tsh b None
+        crc_layer_section c1 cx h tsh b None
       else
-        Ok (set_buf c (bf_buf c ++ data) (Buffering new_remaining), [])
+        Ok (set_buf c (bf_buf c ++ data) (Buffering new_remaining), cx, [])
   end.
 
 Definition buf_reset (c : chain) : chain := set_buf c [] Complete.
 
 (* ---- DedupSectionSyntaxPayloadParser (or straight through) ---- *)
-Definition dd_start (c : chain) (h : common_header) (tsh : list N) (data : list N) (off : nat)
-  : res (chain * list EV) :=
+Definition dd_start (c : chain) (cx : CX) (h : common_header) (tsh : list N) (data : list N) (off : nat)
+  : res (chain * CX * list EV) :=
   if cf_dedup cfg then
     do v <- tsh_version tsh;
     match dd_last_version c with
-    | Some last => if last =? v then Ok (set_dedup c (dd_last_version c) true, [])
-                   else buf_start (set_dedup c (Some v) false) h tsh data off
-    | None => buf_start (set_dedup c (Some v) false) h tsh data off
+    | Some last => if last =? v then Ok (set_dedup c (dd_last_version c) true, cx, [])
+                   else buf_start (set_dedup c (Some v) false) cx h tsh data off
+    | None => buf_start (set_dedup c (Some v) false) cx h tsh data off
     end
-  else buf_start c h tsh data off.
+  else buf_start c cx h tsh data off.
 
-Definition dd_continue (c : chain) (data : list N) : res (chain * list EV) :=
-  if cf_dedup cfg then (if dd_ignore_rest c then Ok (c, []) else buf_continue c data)
-  else buf_continue c data.
+Definition dd_continue (c : chain) (cx : CX) (data : list N) : res (chain * CX * list EV) :=
+  if cf_dedup cfg then (if dd_ignore_rest c then Ok (c, cx, []) else buf_continue c cx data)
+  else buf_continue c cx data.
 
 Definition dd_reset (c : chain) : chain :=
   if cf_dedup cfg then set_dedup (buf_reset c) None false else buf_reset c.
 
 (* ---- {SectionSyntax|CompactSyntax}SectionProcessor ---- *)
-Definition sp_start (c : chain) (h : common_header) (data : list N) (off : nat) : res (chain * list EV) :=
+Definition sp_start (c : chain) (cx : CX) (h : common_header) (data : list N) (off : nat) : res (chain * CX * list EV) :=
   if cf_compact cfg then
-    if ch_ssi h then Ok (set_sp_ignore c true, [])
-    else if Nat.ltb (length data) SCH_SIZE then Ok (set_sp_ignore c true, [])
-    else if Nat.ltb SECTION_LIMIT_COMPACT (ch_section_length h) then Ok (set_sp_ignore c true, [])
-    else buf_start (set_sp_ignore c false) h [] data off
+    if ch_ssi h then Ok (set_sp_ignore c true, cx, [])
+    else if Nat.ltb (length data) SCH_SIZE then Ok (set_sp_ignore c true, cx, [])
+    else if Nat.ltb SECTION_LIMIT_COMPACT (ch_section_length h) then Ok (set_sp_ignore c true, cx, [])
+    else buf_start (set_sp_ignore c false) cx h [] data off
   else
-    if negb (ch_ssi h) then Ok (set_sp_ignore c true, [])
-    else if Nat.ltb (length data) (SCH_SIZE + TSH_SIZE) then Ok (set_sp_ignore c true, [])
-    else if Nat.ltb SECTION_LIMIT_SYNTAX (ch_section_length h) then Ok (set_sp_ignore c true, [])
+    if negb (ch_ssi h) then Ok (set_sp_ignore c true, cx, [])
+    else if Nat.ltb (length data) (SCH_SIZE + TSH_SIZE) then Ok (set_sp_ignore c true, cx, [])
+    else if Nat.ltb SECTION_LIMIT_SYNTAX (ch_section_length h) then Ok (set_sp_ignore c true, cx, [])
     else
       do t <- slice_from data SCH_SIZE 320;
       do tsh <- tsh_new t;
-      dd_start (set_sp_ignore c false) h tsh data off.
+      dd_start (set_sp_ignore c false) cx h tsh data off.
 
-Definition sp_continue (c : chain) (data : list N) : res (chain * list EV) :=
-  if sp_ignore_rest c then Ok (c, [])
-  else if cf_compact cfg then buf_continue c data else dd_continue c data.
+Definition sp_continue (c : chain) (cx : CX) (data : list N) : res (chain * CX * list EV) :=
+  if sp_ignore_rest c then Ok (c, cx, [])
+  else if cf_compact cfg then buf_continue c cx data else dd_continue c cx data.
 
 Definition sp_reset (c : chain) : chain := if cf_compact cfg then buf_reset c else dd_reset c.
 
 (* ---- SectionPacketConsumer::consume ---- *)
-Definition spc_consume (c : chain) (pk : pkt) : res (chain * list EV) :=
+Definition spc_consume (c : chain) (cx : CX) (pk : pkt) : res (chain * CX * list EV) :=
   do pl <- pkt_payload pk;
   match pl with
-  | None => Ok (c, [])
+  | None => Ok (c, cx, [])
   | Some (poff, pk_buf) =>
       do pusi <- pkt_payload_unit_start_indicator pk;
       if pusi then
@@ -171,20 +171,20 @@ Definition spc_consume (c : chain) (pk : pkt) : res (chain * list EV) :=
         do r1 <- (if Nat.ltb 0 pointer then
                     if Nat.leb (length section_data) pointer then Ok (None)
                     else do remainder <- slice_to section_data pointer 323;
-                         do r <- sp_continue c remainder; Ok (Some r)
-                  else Ok (Some (c, [])));
+                         do r <- sp_continue c cx remainder; Ok (Some r)
+                  else Ok (Some (c, cx, [])));
         match r1 with
-        | None => Ok (sp_reset c, [])
-        | Some (c1, e1) =>
+        | None => Ok (sp_reset c, cx, [])
+        | Some (c1, cx1, e1) =>
             do next_sect <- slice_from section_data pointer 324;
-            if Nat.ltb (length next_sect) SCH_SIZE then Ok (sp_reset c1, e1)
+            if Nat.ltb (length next_sect) SCH_SIZE then Ok (sp_reset c1, cx1, e1)
             else
               do hb <- slice_to next_sect SCH_SIZE 325;
               do h <- sch_new hb;
-              do r2 <- sp_start c1 h next_sect (poff + 1 + pointer);
+              do r2 <- sp_start c1 cx1 h next_sect (poff + 1 + pointer);
               Ok (fst r2, e1 ++ snd r2)
         end
-      else sp_continue c pk_buf
+      else sp_continue c cx pk_buf
   end.
 End Chain.
 
